@@ -260,6 +260,7 @@ pub fn check(case: &Case, ctx: &mut CaseCtx) -> CaseResult {
             ctx.feat("scenario:damaged_archive");
         }
     }
+    ctx.feat_if(data.len() >= (1 << 20) - 1 && (data.len() + 1) % (1 << 20) <= 131_074, "size:multi_MiB_boundary");
     ctx.feat_if(case.explicit_out, "paths:explicit");
     ctx.feat_if(!case.explicit_out, "paths:defaulted");
     ctx.nontrivial = !data.is_empty() && (case.level == Level::Absent || data.len() > 128 * 1024);
@@ -280,14 +281,22 @@ fn case_strategy(tier: Tier) -> impl Strategy<Value = Case> {
         1 => Just(Scenario::GarbageArchive),
         2 => any::<u16>().prop_map(Scenario::TruncatedArchive),
     ];
-    (data_strategy(max), 0u8..=7, level, any::<bool>(), scenario, prop::bool::weighted(0.3)).prop_map(|(data, name, level, explicit_out, scenario, stale_outputs)| {
+    (data_strategy(max), 0u8..=7, level, any::<bool>(), scenario, prop::bool::weighted(0.3)).prop_map(|(mut data, name, level, explicit_out, scenario, stale_outputs)| {
+        // a few files of several MiB whose size sits on or just past a multiple of 1 / 2 / 4 / 8 MiB
+        // (up to one block past it): where copy loops with large buffers and "finished" flags meet
+        if data.seed % 25 == 3 {
+            let k = [1u32, 2, 4, 8][(data.seed as usize >> 8) % 4];
+            let delta = [-1i64, 0, 1, 1000, 65_536, 131_071, 131_072, 131_073][(data.seed as usize >> 12) % 8];
+            data.kind = [0u8, 4, 9, 2][(data.seed as usize >> 16) % 4];
+            data.len = ((k as i64) * (1 << 20) + delta) as u32;
+        }
         let via_fifo = !stale_outputs && data.seed % 8 == 0;
         Case { data, name, level, explicit_out, scenario, stale_outputs, via_fifo }
     })
 }
 
 pub fn run_check(eng: &Engine) {
-    eng.set_rule("the real ruzstd-cli binary in a private directory: file contents from the data generator (0 B .. 1 MiB quick / 8 MiB thorough; names with dots, spaces, no extension, non-ASCII UTF-8, bytes that are not UTF-8) x level option {absent, -l 0, -l 1, -l 2..4 (unimplemented), -l 9, -l 255} x input as a regular file or through a named pipe x explicit / defaulted output paths (optionally with stale, longer files already at both destinations) x scenarios {round trip, missing input, output directory missing, garbage archive, truncated archive}; oracle: implemented levels and no level given: exit 0, archive decodes with libzstd to the original, decompress exit 0, restored file identical; operations that cannot be carried out: non-zero exit status and not (panic AND an output file left behind); never exit 0 with a wrong or partial file; non-trivial = non-empty content and (no level given or content > 128 KiB); distinct by (content, options) hash");
+    eng.set_rule("the real ruzstd-cli binary in a private directory: file contents from the data generator (0 B .. 1 MiB quick / 8 MiB thorough, plus a few files sized k MiB + {-1 .. one block}, k in 1/2/4/8; names with dots, spaces, no extension, non-ASCII UTF-8, bytes that are not UTF-8) x level option {absent, -l 0, -l 1, -l 2..4 (unimplemented), -l 9, -l 255} x input as a regular file or through a named pipe x explicit / defaulted output paths (optionally with stale, longer files already at both destinations) x scenarios {round trip, missing input, output directory missing, garbage archive, truncated archive}; oracle: implemented levels and no level given: exit 0, archive decodes with libzstd to the original, decompress exit 0, restored file identical; operations that cannot be carried out: non-zero exit status and not (panic AND an output file left behind); never exit 0 with a wrong or partial file; non-trivial = non-empty content and (no level given or content > 128 KiB); distinct by (content, options) hash");
     eng.assume("the sandbox runs as root, so permission bits cannot be used to make operations fail; a missing directory is used instead");
     let tier = eng.tier;
     let n = eng.tier.pick(2_500, 20_000);
